@@ -38,6 +38,27 @@ CHECKS = {
    text="As C05 for mh_sha1_murmur3_x64_128 with a 64-bit seed per stream: SHA part compared with the multi-hash model, 128-bit part with a MurmurHash3_x64_128 reference (h1=h2=seed), for every fragmentation and family sampled.",
    note="MurmurHash3 reference checked against published vectors at start-up.",
    tech=TECH + ": StreamSim, two reference models at finalize"),
+ "C08": dict(cat="exploration", sec="5 cross-cutting monitors",
+   text="Memory-map monitor over a mixed batch of all workloads (hash managers on 28 pairs, mh/murmur/rolling/GCM streaming, one-shot AES client on every family): every buffer end-flush/start-flush/mid-slot against PROT_NONE pages, canaries around every range, checksums of inputs, key data and bystander objects; SIGSEGV/SIGBUS mapped to (buffer, offset, read/write).",
+   note="Guard pages detect accesses crossing into the neighbouring page from the flush side; the other side is covered by canaries (writes) and by the opposite placement in other runs (reads). Documented alignment rules honoured.",
+   tech=TECH + ": simulated memory map (guard pages, canaries, checksums) as monitor in all simulations"),
+ "C14": dict(cat="exploration", sec="5 cross-cutting monitors",
+   text="After every AES entry point (key expansion, GCM precompute/init/update/finalize/one-shot, CBC, XTS; all families, raw and isal_ API) reached from streaming GCM clients and the one-shot client, all 128 16-byte lanes of zmm0-31 and the dirtied part of a 64 KiB pre-poisoned dead stack are searched for the call's secret set.",
+   note="Secret set: raw keys, all round keys, GHASH key and stored powers, E(key2,tweak). Dedicated call stack re-poisoned per call, so residue is attributable to the call. Low-entropy blocks are not used as needles.",
+   tech=TECH + ": register-file/dead-stack capture by the call trampoline, secret scan as monitor"),
+ "C15": dict(cat="exploration", sec="5 HashMgrSim long-stream workload",
+   text="Long clients stream a periodic pattern through a 4 GiB aliased window under seeded segmentations (segments up to 2^32-1 bytes, small unaligned bursts around 2^29, 2^32, 2^32+2^29) interleaved with short clients on every (algorithm, family) pair; digest compared with a streaming reference, total_length with the sum of segments.",
+   note="Quick: all 28 pairs cross 2^29, two seed-chosen pairs cross 2^32; thorough: all pairs cross 2^32+2^29. One reference digest per (algorithm, length) per process.",
+   tech=TECH + ": HashMgrSim long-stream workload, reference-model oracle"),
+ "C19": dict(cat="exploration", sec="5 cross-cutting monitors",
+   text="Every library call of the mixed batch (hash managers, streaming objects, one-shot AES, all dispatch resolvers) runs through a trampoline that plants sentinels in rbx, rbp, r12-r15, poisons everything else and compares rsp, the sentinels, DF, MXCSR control bits, x87 CW and 64 canary bytes above the callee's frame afterwards; resolvers additionally must preserve every argument, vector and mask register.",
+   note="Exit paths are reached through histories and length classes, not enumerated from source; FIPS-build-only entry points are exercised by C13/C17 without this monitor.",
+   tech=TECH + ": call trampoline with sentinel registers as monitor in all simulations"),
+ "C20": dict(cat="exploration", sec="5 cross-cutting monitors",
+   text="Paired replay: every plan of the mixed batch is executed twice from identical schedule/transport/fault streams and addresses but different hidden seeds (output prefill, uninitialised object memory, bytes beyond len, caller-saved/vector/mask registers, flags, dead stack); the observable histories (return values, returned contexts, digests, tags, output bytes, offsets, statuses) must be identical.",
+   note="Object internals, bytes beyond len and register contents after return are deliberately not compared.",
+   tech=TECH + ": paired execution under different hidden-state seeds, history comparison"),
+
  "C12": dict(cat="exploration", sec="5 DispatchSim",
    text="Every dispatched entry point's resolver is executed under seeded, architecturally consistent simulated CPUID/XCR0 assignments biased to fault profiles; the bound target's instruction classes (classifier over the freshly built objects, closed over calls) must be available on the simulated machine, entries sharing an object must bind one family, XGETBV must not execute without OSXSAVE, the resolver must preserve all registers, and real first calls followed by calls under another CPU must keep the binding without re-querying.",
    note="Hand-written objdump classifier and SDM usability rules; feature classes the dispatchers never test are outside the quantifier; AES entry points have SSE4.1 as documented minimum.",
